@@ -589,6 +589,13 @@ func (w *bigWorld) roundTrip(o op) Sx {
 			cuts[b-1], cuts[b], cuts[b+1] = true, true, true
 		}
 		cuts[len(file)-1] = true
+		if len(file) <= everyCutLimit {
+			// small files: EVERY proper prefix (C06_truncated speaks about every one of them; a reader that swallows an
+			// error is wrong at one particular length only)
+			for c := 0; c < len(file); c++ {
+				cuts[c] = true
+			}
+		}
 		r := rand.New(rand.NewSource(int64(seed)))
 		for k := 0; k < ncuts; k++ {
 			cuts[r.Intn(len(file))] = true
@@ -757,6 +764,10 @@ func runBig(kind string, ops []op, limit time.Duration) {
 		os.Exit(0)
 	}
 }
+
+// everyCutLimit: files up to this length are cut at every length 0 .. len-1, larger ones at the section boundaries +-1 and
+// at random offsets.
+const everyCutLimit = 8192
 
 func bop(kind, mode string, args ...int) op { return op{kind: kind, args: args, mode: mode} }
 
@@ -974,6 +985,11 @@ func genScale() {
 	for i, sh := range shapes {
 		again := sh.size <= 20000 || (i%4 == 0 && sh.size <= 100000)
 		runBig("scale", arenaScript(sh.size, sh.kp, sh.vp, sh.period, sh.gaps, sh.dk, again, r), lim)
+	}
+	// small arenas with gaps whose file has a few hundred bytes to a few KB: cut at EVERY length (see everyCutLimit)
+	for i, size := range []int{12, 40, 129, 300, 700, 1200} {
+		vp := []string{"rnd", "seq", "const"}[i%3]
+		runBig("scale", arenaScript(size, []string{"rnd", "asc", "desc"}[i%3], vp, 1, true, true, i%2 == 0, r), lim)
 	}
 	// gaps only: everything erased (size-1 gaps: the gap buffer is the long one), refilled in Go map order
 	esizes := []int{1000, 1<<14 + 1, 1<<16 + 2}
